@@ -459,3 +459,55 @@ pub fn parse_event(a: &Value, style: IdStyle) -> (String, Value) {
         Err(_) => ("panic".into(), api),
     }
 }
+
+// ------------------------------------------------------------------------------------------ Query event (C08)
+
+fn item_json(it: &QueryResultItem) -> Value {
+    match it {
+        QueryResultItem::None => json!({"t": "none", "a": 0, "b": 0, "c": 0}),
+        QueryResultItem::Annotation(a) => json!({"t": "ann", "a": a.handle().as_usize() + 1, "b": 0, "c": 0}),
+        QueryResultItem::AnnotationData(d) => json!({"t": "data", "a": d.set().handle().as_usize() + 1, "b": d.handle().as_usize() + 1, "c": 0}),
+        QueryResultItem::TextSelection(t) => json!({"t": "text", "a": t.resource().handle().as_usize() + 1, "b": t.begin(), "c": t.end()}),
+        QueryResultItem::TextResource(r) => json!({"t": "res", "a": r.handle().as_usize() + 1, "b": 0, "c": 0}),
+        QueryResultItem::DataKey(k) => json!({"t": "key", "a": k.set().handle().as_usize() + 1, "b": k.handle().as_usize() + 1, "c": 0}),
+        QueryResultItem::AnnotationDataSet(s) => json!({"t": "set", "a": s.handle().as_usize() + 1, "b": 0, "c": 0}),
+        QueryResultItem::AnnotationSubStore(_) => json!({"t": "substore", "a": 0, "b": 0, "c": 0}),
+    }
+}
+
+fn without_limit(q: &QAst) -> QAst {
+    let mut q = q.clone();
+    q.cs.retain(|c| c.k != "Limit");
+    q
+}
+
+fn run_query(store: &AnnotationStore, ast: &QAst, form: &str, style: IdStyle) -> Result<Vec<Value>, StamError> {
+    let built = build_query(ast, style);
+    let query: Query<'static> = if form == "text" {
+        let text: &'static str = leak(built.to_string()?);
+        text.try_into()?
+    } else {
+        built
+    };
+    let mut rows = Vec::new();
+    for row in store.query(query)? {
+        rows.push(Value::Array(row.iter().map(item_json).collect()));
+    }
+    Ok(rows)
+}
+
+/// Returns (outcome, api)
+pub fn query_event(store: &AnnotationStore, a: &Value, style: IdStyle) -> (String, Value) {
+    let ast: QAst = serde_json::from_value(a["q"].clone()).expect("harness: query ast");
+    let form = a["form"].as_str().unwrap_or("built").to_string();
+    let r = catch_unwind(AssertUnwindSafe(|| -> Result<(Vec<Value>, Vec<Value>), StamError> {
+        let rows = run_query(store, &ast, &form, style)?;
+        let base = run_query(store, &without_limit(&ast), &form, style)?;
+        Ok((rows, base))
+    }));
+    match r {
+        Ok(Ok((rows, base))) => ("ok".into(), json!({"has": true, "ok": true, "rows": rows, "base": base})),
+        Ok(Err(e)) => ("err".into(), json!({"has": true, "ok": false, "rows": [], "base": [], "error": format!("{}", e).chars().take(200).collect::<String>()})),
+        Err(_) => ("panic".into(), json!({"has": true, "ok": false, "rows": [], "base": []})),
+    }
+}
